@@ -646,6 +646,10 @@ class LibMixin:
 
     def l_np_flipud(self, node, st):
         v = self.eval(node.args[0], st)
+        if isinstance(v, Ref) and isinstance(st.obj(v), HArr2):
+            o = st.obj(v)
+            k = z3.Int("k!flip")
+            return st.alloc(HArr2(o.kind, z3.Lambda([k], z3.Select(o.a, o.n - 1 - k)), o.n, o.m))
         n = self.length_of(st, v)
         if isinstance(v, Ref):
             return View(v.ref, z3.simplify(n - 1), zint(-1), n)
